@@ -65,6 +65,10 @@ DESC["C05"] = dict(technique=CASES + " (spec/Equal.tla: Canon / Mutants / Neutra
    text="Eq(a,b) is equality of canonical descriptions; TLC proves on every enumerated tree that every single point mutation breaks Eq and every neutral variation keeps it, then emits (tree, copy), (tree, mutant) and (tree, neutral variant) pairs; both sides are built by two independent calls of the concretiser and IsEqual must answer nil / error accordingly in BOTH directions without panicking. ~4.8k pairs (quick) over 20 leaf classes in three positions; random pairs validated by Check_Equal.tla.",
    note="Exhaustive only within the stated leaf classes and positions; error text is never compared; functions / channels / unsafe pointers are covered by C08's awkward-value sweep (no panic), not by equality semantics.")
 
+DESC["C12"] = dict(technique=CASES + "; alias value classes S/A/P in the Stackage / CondMC state machines; spec/Convert.tla", design_ref="DESIGN.md section 4 C12",
+   text="The specification operators are defined on trees whose nodes carry a 'form' tag that no operator reads, so alias equivalence is a theorem of the spec by construction; the conformance side instantiates every tree family (render, IsEqual incl. form change as a neutral variation, codec, Traverse, Defrag, Reveal) with nested nodes in native / alias / delegating-String alias / unrelated-String alias / pointer-to-alias form and compares the real results with the form-erased expectation; no-nesting, IsNesting, Condition.SetExpression / Len and Transfer destinations use the S/A/P value classes in the state machines; ConvertStack / ConvertCondition are checked over 17 value classes x 2 functions.",
+   note="Alias types are declared in the harness (AStack, WStack, XStack, ACond, WCond, XCond); Defrag cases inherit the open Defrag finding (reported as KNOWN-FINDING under C12 as well).")
+
 def main():
     commits = subprocess.run(["git", "-C", "/repo", "log", "--format=%h %s", "--grep=^verif:"],
                              stdout=subprocess.PIPE, text=True).stdout.strip().splitlines()
